@@ -87,28 +87,17 @@ func tableDiff(a, b []string) string {
 	}
 	var onlyA, onlyB []string
 	for _, r := range a {
-		if bs[r] < as[r] {
+		if bs[r] > 0 {
+			bs[r]--
+		} else {
 			onlyA = append(onlyA, r)
-			bs[r]++
 		}
 	}
 	for _, r := range b {
-		if as[r] < bs[r] {
-			// (bs was bumped above for rows only in a; recount)
-		}
-	}
-	as2 := map[string]int{}
-	for _, r := range a {
-		as2[r]++
-	}
-	bs2 := map[string]int{}
-	for _, r := range b {
-		bs2[r]++
-	}
-	for _, r := range b {
-		if as2[r] < bs2[r] {
+		if as[r] > 0 {
+			as[r]--
+		} else {
 			onlyB = append(onlyB, r)
-			as2[r]++
 		}
 	}
 	if len(onlyA) == 0 && len(onlyB) == 0 {
@@ -126,9 +115,18 @@ func clip(s string, n int) string {
 
 // ---------------------------------------------------------------- read APIs (result AND index)
 
-type qres struct{ name, out string }
+type qres struct {
+	name, out string
+	again     func() string // re-evaluates the same query on the same store
+}
 
 func q3(name string, f func() (uint64, any, error)) (r qres) {
+	r = q3once(name, f)
+	r.again = func() string { return q3once(name, f).out }
+	return r
+}
+
+func q3once(name string, f func() (uint64, any, error)) (r qres) {
 	r.name = name
 	defer func() {
 		if p := recover(); p != nil {
